@@ -4,7 +4,9 @@ import YaegiVerif.Spec.GoConst
   C03 — divergence classes. A class is a decidable predicate of the *input* (a declaration context and an
   expression tree): it is computed from the two models only, never from an observed outcome. The label names the
   first place (post-order) where the model of the unchanged interpreter and the Go-spec model part ways.
-  The harness attaches the label to a failing input; KNOWN_FINDINGS.json lists the classes that are known.
+  The harness attaches the label to a failing input; KNOWN_FINDINGS.json lists the classes that are known
+  (after the repairs of the third round: `typed-decl-mismatch` F03-18, `bool-shift-panic` F03-19,
+  `unmodelled:len-at-run-time` F03-20, `const-second-walk` / `block-interplay` F03-14).
   (Glue for reporting; no theorem depends on it.)
 -/
 namespace YaegiVerif.Const.Class
@@ -58,75 +60,55 @@ def goTy (iota : Nat) (e : CExpr) : Option Ty :=
   | .ok v => some v.ty
   | _ => none
 
-/-- label of a node-level divergence -/
+/-- label of a node-level divergence. After the repairs of the third round one is left: a shift whose left operand
+    is an untyped boolean constant (`true << 1`) is a Go panic in `check.shift` (the type assertion to
+    constant.Value). Anything else gets a label that no finding lists. -/
 def labelNode (F : Facts) (env : Env) (e : CExpr) : String :=
   let c := compare (evalY F env none e) (Spec.evalGo env.iota e)
   match evalY F env none e with
   | .unm w => "unmodelled:" ++ w
   | _ =>
   match e with
-  | .conv _ x =>
+  | .bin a x _ =>
+    if isShiftAct a && c == .yCrash && goTy env.iota x == some (.u .bool) then "bool-shift-panic"
+    else (match c with
+      | .yCrash => "node-panic"
+      | .yOkGReject => "node-accepts-invalid"
+      | .yRejectGOk => "node-rejects-valid"
+      | .typeOnly => "node-type"
+      | .value => "node-value"
+      | _ => "node-other")
+  | _ =>
     (match c with
-     | .yOkGReject =>
-       if (goTy env.iota x).any Ty.untyped then "conv-untyped-unchecked"
-       else "conv-typed-unchecked"
-     | .yCrash => "fold-panic"
-     | .yRejectGOk => "rejects-valid"
-     | .value => "conv-value"
-     | _ => "conv-other")
-  | .bin a x y =>
-    let tx := goTy env.iota x
-    let ty := goTy env.iota y
-    (match c with
-     | .yCrash => if a == .quo || a == .rem then "typed-div-zero-panic" else "fold-panic"
-     | .yOkGReject =>
-       let typedSide : Option Ty := match tx, ty with
-         | some (.t b), _ => some (.t b)
-         | _, some (.t b) => some (.t b)
-         | _, _ => none
-       (match typedSide with
-        | some _ =>
-          if isShiftAct a then "typed-arith-wraps"
-          else if a == .quo && tx != ty then "quo-unchecked"
-          else "typed-arith-wraps"
-        | none => "untyped-limit")
-     | .typeOnly => if a == .quo then "rune-quo-type" else "type-differs"
-     | .value => if a == .quo then "quo-unchecked" else "value-differs"
-     | .yRejectGOk => "rejects-valid"
-     | _ => "bin-other")
-  | .un _ _ =>
-    (match c with
-     | .yOkGReject => "typed-arith-wraps"
-     | .yCrash => "fold-panic"
-     | _ => "un-other")
-  | _ => "leaf-other"
-
-/-- does the tree contain a rune literal? -/
-def hasRune : CExpr → Bool
-  | .rune _ => true
-  | .un _ x => hasRune x
-  | .bin _ x y => hasRune x || hasRune y
-  | .conv _ x => hasRune x
-  | .par x => hasRune x
-  | .len x => hasRune x
-  | _ => false
+     | .yCrash => "node-panic"
+     | .yOkGReject => "node-accepts-invalid"
+     | .yRejectGOk => "node-rejects-valid"
+     | .typeOnly => "node-type"
+     | .value => "node-value"
+     | _ => "node-other")
 
 inductive Ctx where
   | var | const
   deriving DecidableEq, Repr
+
+/-- the declared type differs from the type the Go specification gives the (typed) initialiser: Go rejects the
+    declaration; the interpreter copies the declared type onto an operator at the top of the initialiser before
+    its operands are looked at (F03-18) -/
+def declMismatch (iota : Nat) (declT : Option BT) (e : CExpr) : Bool :=
+  match declT, Spec.evalGo iota e with
+  | some t, .ok gv => (match gv.ty with | .t b => b != t | .u _ => false)
+  | _, _ => false
 
 /-- class of one declaration (`"-"` = the models agree) -/
 def classifyDecl (F : Facts) (ctx : Ctx) (iota : Nat) (declT : Option BT) (e : CExpr) (y : Out) (g : Res (CV × BT)) : String :=
   let agree : Bool := match y, g with
     | .ok [v], .ok w => v == w
     | .reject, .reject => true
+    | .rejectOrCrash, .reject => true     -- the first walk rejects; the harness accepts only `reject` from the real code
     | _, _ => false
-  if y == .rejectOrCrash then "const-reject-retry"
-  else if agree then "-"
-  else match unmodelled e with
-  | some w => "unmodelled:" ++ w
-  | none =>
-    match y with
+  if agree then "-"
+  else if declMismatch iota declT e then "typed-decl-mismatch"
+  else match y with
     | .unm w => "unmodelled:" ++ w
     | _ =>
       let env : Env := { iota := iota, inConst := ctx == .const }
@@ -135,9 +117,7 @@ def classifyDecl (F : Facts) (ctx : Ctx) (iota : Nat) (declT : Option BT) (e : C
       | none =>
         -- every sub-expression agrees in a single walk: the declaration context makes the difference
         (match declT with
-         | some _ => "typed-decl-unchecked"
-         | none =>
-           if ctx == .var then (if hasRune e then "global-var-rune" else "var-decl-other")
-           else "const-second-walk")
+         | some _ => "typed-decl-other"
+         | none => if ctx == .var then "var-decl-other" else "const-second-walk")
 
 end YaegiVerif.Const.Class
